@@ -485,6 +485,11 @@ def extra_checks(ctx, cases, impl_lines, model_lines):
         return res
     # aligned / truncated fields whose text comes from a message that, while it is formatted, has ANOTHER record
     # encoded on the same thread (with aligned fields of its own), or that fails half-way: C09's modes 6 and 9
-    return xcheck.borrow(ctx, "C09", "an aligned / truncated field around a message that logs or fails while it is formatted",
-                         lambda c: c[0] in (6, 9), n=400, seed_salt=23)
+    res = xcheck.borrow(ctx, "C09", "an aligned / truncated field around a message that logs or fails while it is formatted",
+                        lambda c: c[0] in (6, 9), n=400, seed_salt=23)
+    if res:
+        return res
+    # widths the unary model is not run on: maxima of 2^k + r, minima around 2^16, minima no sink can hold
+    from gen import c11
+    return c11.wide_spec_checks(ctx, vc.build_harness("c11"))
 
